@@ -5,6 +5,7 @@
 package scen
 
 import (
+	"github.com/ThreeDotsLabs/watermill"
 	"fmt"
 	"sort"
 	"strings"
@@ -209,3 +210,5 @@ func LibGoroutinesAlive(s *simrt.Sim, createdIn ...string) []simrt.GInfo {
 }
 
 func rawClosed(ch <-chan struct{}) bool { return simrt.IsClosedRaw(ch) }
+
+func nopLogger() watermill.LoggerAdapter { return watermill.NopLogger{} }
